@@ -457,11 +457,65 @@ impl std::error::Error for Wrap {
     }
 }
 
+/// The reset as a client meets it: a raw HTTP/2 peer on the in-memory pipe answers the call with
+/// RST_STREAM(reason), before any response headers or after headers and half a message; the error then
+/// travels hyper::Error -> transport error -> Status (before headers) or through the response body.
+fn h2_reset_on_the_wire(reason: u32, after_headers: bool) -> Result<Status, Failure> {
+    use crate::infra::rt;
+    use std::time::Duration;
+    let (cend, send_, _h) = crate::infra::pipe::pipe(vec![], vec![]);
+    let res = rt::run_virtual(reason as u64, Duration::from_secs(3600), async move {
+        let srv = tokio::spawn(async move {
+            let Ok(mut conn) = h2::server::handshake(send_).await else { return };
+            while let Some(Ok((_req, mut respond))) = conn.accept().await {
+                if after_headers {
+                    let resp = http::Response::builder().status(200).header("content-type", "application/grpc").body(()).unwrap();
+                    if let Ok(mut body) = respond.send_response(resp, false) {
+                        let _ = body.send_data(Bytes::from_static(&[0, 0, 0, 0, 9, b'x']), false);
+                        body.send_reset(h2::Reason::from(reason));
+                    }
+                } else {
+                    respond.send_reset(h2::Reason::from(reason));
+                }
+            }
+        });
+        let cell = std::sync::Arc::new(std::sync::Mutex::new(Some(cend)));
+        let connector = tower::service_fn(move |_u: http::Uri| {
+            let cell = cell.clone();
+            async move { cell.lock().unwrap().take().map(hyper_util::rt::TokioIo::new).ok_or_else(|| std::io::Error::new(std::io::ErrorKind::Other, "single-use connector")) }
+        });
+        let ch = tonic::transport::Endpoint::from_static("http://pipe.test").connect_with_connector(connector).await.map_err(|e| format!("connect: {e:?}"))?;
+        let mut client = crate::svc::vt::raw_client::RawClient::new(ch);
+        let r = async {
+            let mut s = client.server_stream(b"ping".to_vec()).await?.into_inner();
+            while s.message().await?.is_some() {}
+            Ok::<(), Status>(())
+        }
+        .await;
+        srv.abort();
+        Ok::<_, String>(r)
+    });
+    match res {
+        Err(_) => bail!("C04/h2-reset-call-never-resolves", "call answered with RST_STREAM({reason}) never resolved"),
+        Ok(Err(e)) => bail!("C04/h2-reset-setup", "{e}"),
+        Ok(Ok(Ok(()))) => bail!("C04/h2-reason-ok", "call answered with RST_STREAM({reason}) (after headers: {after_headers}) succeeded"),
+        Ok(Ok(Err(s))) => Ok(s),
+    }
+}
+
 fn run_h2(reason: u32, how: u8, o: &mut Outcome) -> Result<(), Failure> {
     let mk = || h2::Error::from(h2::Reason::from(reason));
-    let st: Status = match how % 2 {
+    let st: Status = match how % 4 {
         0 => Status::from(mk()),
-        _ => Status::from_error(Box::new(mk())),
+        1 => Status::from_error(Box::new(mk())),
+        2 => {
+            o.label("h2_reset_on_the_wire_before_headers");
+            h2_reset_on_the_wire(reason, false)?
+        }
+        _ => {
+            o.label("h2_reset_on_the_wire_mid_stream");
+            h2_reset_on_the_wire(reason, true)?
+        }
     };
     o.label_if(reason <= 13, "h2_known_reason");
     o.label_if(reason > 13, "h2_unknown_reason");
@@ -505,7 +559,7 @@ impl Prop for C04 {
         run(c, o)
     }
     fn rule() -> &'static str {
-        "proptest over six families (incl. statuses recovered from error source chains and the HTTP table through a generated client). (a) round trip: 17 codes x Unicode messages (controls, %, %41, non-ASCII incl. 4-byte, <=300 chars) x details 0-200 bytes x metadata (ASCII/opaque/-bin, repeated, reserved names) through Status::add_header / into_http and back through from_header_map; produced values judged by independent percent/base64 decoders. (b) totality: arbitrary header maps (malformed grpc-status, broken escapes, invalid UTF-8, bad base64). (c) every HTTP status 100..=599 (enumerated exhaustively) through Streaming::new_response, with and without a grpc-status trailer, against the transcribed table. (d) h2 reasons 0..=13 (exhaustive) and unknown ones through From<h2::Error> / from_error against the transcribed table. Non-trivial: (a) message needs escaping or details length mod 3 != 0 or metadata non-empty; (b) >=1 malformed field; (c) status != 200; (d) all. Distinct = distinct serialised case. Also: status metadata holding an entry named grpc-status-details-bin next to non-empty details (the details win)."
+        "proptest over six families (incl. statuses recovered from error source chains and the HTTP table through a generated client). (a) round trip: 17 codes x Unicode messages (controls, %, %41, non-ASCII incl. 4-byte, <=300 chars) x details 0-200 bytes x metadata (ASCII/opaque/-bin, repeated, reserved names) through Status::add_header / into_http and back through from_header_map; produced values judged by independent percent/base64 decoders. (b) totality: arbitrary header maps (malformed grpc-status, broken escapes, invalid UTF-8, bad base64). (c) every HTTP status 100..=599 (enumerated exhaustively) through Streaming::new_response, with and without a grpc-status trailer, against the transcribed table. (d) h2 reasons 0..=13 (exhaustive) and unknown ones through From<h2::Error> / from_error, and as RST_STREAM sent by a raw HTTP/2 peer over the in-memory pipe to a generated client (before the response headers, or after headers and half a message), against the transcribed table. Non-trivial: (a) message needs escaping or details length mod 3 != 0 or metadata non-empty; (b) >=1 malformed field; (c) status != 200; (d) all. Distinct = distinct serialised case. Also: status metadata holding an entry named grpc-status-details-bin next to non-empty details (the details win)."
     }
     fn assumptions() -> Vec<String> {
         vec![
@@ -530,14 +584,14 @@ impl Prop for C04 {
             }
         }
         for reason in 0u32..=13 {
-            for how in 0..2 {
+            for how in 0..4 {
                 v.push(Case::H2Reason { reason, how });
             }
         }
         v
     }
     fn fixed_is_exhaustive() -> Option<&'static str> {
-        Some("HTTP status 100..=599 without trailers (500 cases) and h2 reasons 0..=13 x 2 conversion paths are enumerated completely")
+        Some("HTTP status 100..=599 without trailers (500 cases) and h2 reasons 0..=13 x 4 paths (From<h2::Error>, from_error, RST_STREAM from a raw HTTP/2 peer before headers / mid-stream) are enumerated completely")
     }
     fn from_bytes(data: &[u8]) -> Option<Case> {
         // fuzz target c04_headers: raw name/value bytes. Layout: repeated [kind u8][len u8][value bytes]
